@@ -524,6 +524,38 @@ static void with_scalings(Mat M, bool symmetric, bool scale, const std::function
     }
 }
 
+// ---------------------------------------------------------------- determinants read again after the factor array changed in place
+// straight-line code through an opaque pointer at -O2: each call reads the factors as they are at that moment
+static __attribute__((noinline)) void det_twice(a_real *A, a_real *out)
+{
+    // diagonal factors 2, -4, 8 (upper triangle of a PLU result / pivots of LDL); the strictly lower part is multipliers
+    out[0] = a_real_plu_det(3, A, 1); out[1] = a_real_plu_lndet(3, A); out[2] = (a_real)a_real_plu_sgndet(3, A, 1);
+    out[3] = a_real_ldl_det(3, A); out[4] = a_real_ldl_lndet(3, A); out[5] = (a_real)a_real_ldl_sgndet(3, A);
+    A[0] = 4; A[4] = 2; A[8] = 16; // diagonal now 4, 2, 16: all positive, also a valid Cholesky factor
+    out[6] = a_real_plu_det(3, A, 1); out[7] = a_real_plu_lndet(3, A); out[8] = (a_real)a_real_plu_sgndet(3, A, 1);
+    out[9] = a_real_ldl_det(3, A); out[10] = a_real_ldl_lndet(3, A); out[11] = (a_real)a_real_ldl_sgndet(3, A);
+    out[12] = a_real_llt_det(3, A); out[13] = a_real_llt_lndet(3, A);
+    A[0] = 1; A[4] = 1; A[8] = 2;
+    out[14] = a_real_llt_det(3, A); out[15] = a_real_llt_lndet(3, A);
+}
+static void reread()
+{
+    if (R.shard.idx != 0) { return; }
+    a_real A[9] = {2, 1, 1, (a_real)0.5, -4, 1, (a_real)0.25, (a_real)0.5, 8}, out[16];
+    a_real *volatile vp = A;
+    det_twice(vp, out);
+    const double ln2 = 0.69314718055994530942;
+    // det = product of the diagonal (LLT: its square), lndet = log|det|, sgndet = sign
+    double want[16] = {-64, 6 * ln2, -1, -64, 6 * ln2, -1, 128, 7 * ln2, 1, 128, 7 * ln2, 1, 128.0 * 128.0, 14 * ln2, 4, 2 * ln2};
+    static const char *FN[16] = {"a_real_plu_det", "a_real_plu_lndet", "a_real_plu_sgndet", "a_real_ldl_det", "a_real_ldl_lndet", "a_real_ldl_sgndet", "a_real_plu_det", "a_real_plu_lndet", "a_real_plu_sgndet",
+                                 "a_real_ldl_det", "a_real_ldl_lndet", "a_real_ldl_sgndet", "a_real_llt_det", "a_real_llt_lndet", "a_real_llt_det", "a_real_llt_lndet"};
+    for (int i = 0; i < 16; ++i)
+    {
+        ++n_eval;
+        if (!(std::fabs((double)out[i] - want[i]) <= 16 * EPS * (std::fabs(want[i]) + 1))) { R.viol(std::string(FN[i]) + "|reread", std::string(FN[i]) + (i >= 6 ? " called again with the same pointer after the factor array changed in place" : " on factors with diagonal 2, -4, 8") + " returned " + num((double)out[i]) + ", the factors give " + num(want[i]), "{\"call\":" + std::to_string(i) + "}"); }
+    }
+}
+
 int main(int argc, char **argv)
 {
     vx::Args args(argc, argv);
@@ -532,6 +564,7 @@ int main(int argc, char **argv)
     return vx::run_contained([&] {
         n_eval = n_nt = 0;
         uint64_t item = 0;
+        reread();
         // ---- general matrices: all of order <= 3 over {-2..2}; order 4 over {-1,0,1}
         for (int n = 1; n <= 4; ++n)
         {
